@@ -337,6 +337,7 @@ pub fn render_varied(ch: &mut Choices, ag: &AG, kind: YKind) -> (String, YLayout
         ExpectRr,
         ParseParam,
         ParseGenerics,
+        ExpectUnused,
         ActionType,
         Implicit,
     }
@@ -375,6 +376,9 @@ pub fn render_varied(ch: &mut Choices, ag: &AG, kind: YKind) -> (String, YLayout
     }
     if w.ch.chance(1, 4) {
         items.push(Item::ParseGenerics);
+    }
+    if w.ch.chance(1, 6) {
+        items.push(Item::ExpectUnused);
     }
     if kind == YKind::UserAction {
         items.push(Item::ActionType);
@@ -480,6 +484,25 @@ pub fn render_varied(ch: &mut Choices, ag: &AG, kind: YKind) -> (String, YLayout
             }
             Item::ParseParam => {
                 w.s.push_str("%parse-param p: &'a mut u8");
+            }
+            Item::ExpectUnused => {
+                // names one or two existing symbols; does not introduce tokens
+                w.s.push_str("%expect-unused");
+                let k = w.ch.range(1, 2);
+                for _ in 0..k {
+                    w.inline_ws(true);
+                    if nt == 0 || w.ch.chance(1, 2) {
+                        let r = w.ch.pick(nr);
+                        w.s.push_str(&ag.rules[r].name);
+                    } else {
+                        let t = w.ch.pick(nt);
+                        let q = if ag.tokens[t].contains('\'') { '"' } else { '\'' };
+                        w.s.push(q);
+                        w.s.push_str(&ag.tokens[t]);
+                        w.s.push(q);
+                    }
+                }
+                w.feat("expect-unused");
             }
             Item::ParseGenerics => {
                 w.s.push_str("%parse-generics 'a, T: Copy");
